@@ -219,6 +219,7 @@ class Generator {
       case OP_PUSH_TRACER: return mk(k, rng_.below(2));
       case OP_SET_REPORTER: return mk(k, rng_.below(2));
       case OP_NEW_WATCHED: return mk(k, 0, rng_.below(100));
+      case OP_COPY_WATCHED: case OP_MOVECONS_WATCHED: return mk(k, rng_.below(12), rng_.below(2));
       case OP_ABANDON: return mk(k, rng_.below(4));
       case OP_WIDE: return mk(k, rng_.below(64), rng_.below(50));
       default: return mk(k, rng_.below(12));
